@@ -237,6 +237,23 @@ def run(c, chk):
             chk.ok('R17.7', 'cfg_tilde_expand: %d lookups' % nuser, 'getpwnam(filename[1 .. rest)) with rest = the part appended to the home directory', sample=True)
     chk.floor('R17.7 user lookups', nuser, 1)
 
+    # ---- R17.8: the file system is consulted when a name is looked up, not when a directory is registered ---
+    chk.rule('R17.8', 'registering a search directory does not look at the file system (only the lookup does): resolution depends on the file system at lookup time')
+    FS = ('stat', 'lstat', '__xstat', '__lxstat', 'access', 'faccessat', 'fopen', 'open', 'opendir', 'fstat', '__fxstat', 'realpath')
+    adder = c.need('cfg_add_searchpath')
+    hits = [x for x in c.deep_calls(adder) if (x.callee_name() or '') in FS]
+    if hits:
+        chk.fail('R17.8', 'add-time-fs:%s' % hits[0].callee_name(), c.where(hits[0]), 'cfg_add_searchpath() calls %s(): whether a directory takes part in later lookups is decided by the '
+                 'state of the file system when it was registered (a directory created afterwards is never searched)' % hits[0].callee_name())
+    else:
+        chk.ok('R17.8', 'cfg_add_searchpath', 'no file-system test; cfg_searchpath() tests candidates when a name is looked up')
+
+    # ---- R17.9: the search path applies wherever an include is written ---------------------------------
+    if not isinstance(chk, report.SubCheck):
+        from . import c13 as _c13, c08 as _c08
+        chk.rule('R17.9', 'the search path reaches every section: an include inside a section resolves like one at top level')
+        _c13.section_path(c, _c08.chk_proxy(chk, {'R13.8': 'R17.9'}))
+
     # ---- R17.6 ---------------------------------------------------------------------------------
     resolution_idiom(c, chk, ex)
 
